@@ -170,11 +170,13 @@ Section ViewDe.
     b_ascii : json -> image -> outcome T;        (* ImageAsciiView *)
     b_tag : json -> T -> T;
     b_ref : json -> T;                           (* ViewCached *)
-    b_trace : json -> T -> T                     (* TraceLayout *)
+    b_trace : json -> T -> T;                    (* TraceLayout *)
+    b_custom : json -> T                         (* the view a registered handler returns *)
   }.
 
   (* view/mod.rs:793-878 with flex.rs:253-316, container.rs:258-298, tag_from_json_value *)
-  Fixpoint view_gen {T : Type} (B : builders T) (fuel : nat) (j : json) : outcome T :=
+  (* `handlers t`: a handler is registered under the type name t (ViewDeserializer::register) *)
+  Fixpoint view_gen {T : Type} (handlers : str -> bool) (B : builders T) (fuel : nat) (j : json) : outcome T :=
     match fuel with
     | O => OutOfFuel
     | S f =>
@@ -186,7 +188,7 @@ Section ViewDe.
             else if str_eqb t (s2l "trace-layout") then
               match jget j (s2l "view") with
               | None => Err 2
-              | Some v => let* x := view_gen B f v in Ok (b_trace T B j x)
+              | Some v => let* x := view_gen handlers B f v in Ok (b_trace T B j x)
               end
             else if str_eqb t (s2l "flex") then
               let* _ := opt_attr j "direction" (fun v => of_bool (orc OAxis v)) in
@@ -196,14 +198,14 @@ Section ViewDe.
               | Some (JArr values) =>
                   let* kids :=
                     map_out (fun c =>
-                      if is_some (jget c (s2l "type")) then view_gen B f c
+                      if is_some (jget c (s2l "type")) then view_gen handlers B f c
                       else
                         let* _ := opt_attr c "flex" (fun v => of_bool (de_f64_ok v)) in
                         let* _ := opt_attr c "align" (fun v => of_bool (orc OAlign v)) in
                         let* _ := opt_attr c "face" face_de_u in
                         match jget c (s2l "view") with
                         | None => Err 3
-                        | Some v => view_gen B f v
+                        | Some v => view_gen handlers B f v
                         end) values in
                   Ok (b_flex T B j kids)
               | Some _ => Err 4
@@ -216,7 +218,7 @@ Section ViewDe.
               let* _ := opt_attr j "size" (fun v => of_bool (is_some (de_size v))) in
               match jget j (s2l "child") with
               | None => Err 5
-              | Some v => let* x := view_gen B f v in Ok (b_container T B j x)
+              | Some v => let* x := view_gen handlers B f v in Ok (b_container T B j x)
               end
             else if str_eqb t (s2l "glyph") then let* _ := glyph_de j in Ok (b_glyph T B j)
             else if str_eqb t (s2l "image") then let* img := image_de j in Ok (b_image T B j img)
@@ -228,12 +230,13 @@ Section ViewDe.
               | Some v =>
                   match jget j (s2l "tag") with
                   | None => Err 8
-                  | Some _ => let* x := view_gen B f v in Ok (b_tag T B j x)
+                  | Some _ => let* x := view_gen handlers B f v in Ok (b_tag T B j x)
                   end
               end
             else if str_eqb t (s2l "ref") then
               let* _ := of_bool (match jget j (s2l "ref") with Some r => as_i64_some r | None => false end) in
               Ok (b_ref T B j)
+            else if handlers t then Ok (b_custom T B j)     (* a registered handler: it returns a view, it cannot fail *)
             else Err 9                                      (* no registered handler *)
         end
     end.
@@ -241,10 +244,10 @@ Section ViewDe.
   Definition unit_builders : builders unit :=
     {| b_text := fun _ => tt; b_flex := fun _ _ => tt; b_container := fun _ _ => tt; b_glyph := fun _ => tt;
        b_image := fun _ _ => tt; b_ascii := fun _ _ => Ok tt; b_tag := fun _ _ => tt; b_ref := fun _ => tt;
-       b_trace := fun _ _ => tt |}.
+       b_trace := fun _ _ => tt; b_custom := fun _ => tt |}.
 
   (* the outcome class alone *)
-  Definition view_de (fuel : nat) (j : json) : outcome unit := view_gen unit_builders fuel j.
+  Definition view_de (handlers : str -> bool) (fuel : nat) (j : json) : outcome unit := view_gen handlers unit_builders fuel j.
 
   (* nesting depth of a JSON value *)
   Fixpoint jdepth (j : json) : nat :=
@@ -254,14 +257,16 @@ Section ViewDe.
     | _ => 1%nat
     end.
 
-  Definition view_gen_kind {T : Type} (B : builders T) (k : vkind) (j : json) : outcome T :=
+  Definition view_gen_kind {T : Type} (handlers : str -> bool) (B : builders T) (k : vkind) (j : json) : outcome T :=
     match k with
-    | KView => view_gen B (S (jdepth j)) j
+    | KView => view_gen handlers B (S (jdepth j)) j
     | KText => let* _ := text_rec (S (jdepth j)) j in Ok (b_text T B j)
     | KGlyph => let* _ := glyph_de j in Ok (b_glyph T B j)
     end.
 
-  Definition view_de_kind (k : vkind) (j : json) : outcome unit := view_gen_kind unit_builders k j.
+  Definition view_de_kind (handlers : str -> bool) (k : vkind) (j : json) : outcome unit := view_gen_kind handlers unit_builders k j.
+
+  Definition no_handlers : str -> bool := fun _ => false.
 End ViewDe.
 
 (* oracle from a finite table of answers: (kind, value) -> accepted *)
